@@ -414,13 +414,32 @@ def rand_type(rng, tparams=(), depth=0, allow_helper=True):
     return T_basic(rng.choice(BASIC_TYPES))
 
 
+def _has_param(t):
+    if t[0] == "param":
+        return True
+    if t[0] in ("ptr", "slice"):
+        return _has_param(t[1])
+    if t[0] == "map":
+        return _has_param(t[1]) or _has_param(t[2])
+    if t[0] == "named":
+        return any(_has_param(a) for a in t[3])
+    return False
+
+
 def def_for_type(rng, t):
     if t[0] == "basic" and t[1] in DEF_VALUES:
         return rng.choice(DEF_VALUES[t[1]])
     if t == T_named("time", "Duration"):
         return rng.choice(DEF_VALUES["dur"])
-    if t[0] in ("ptr", "slice", "map") and rng.random() < 0.3:
-        return "nil"
+    if t[0] in ("ptr", "slice", "map"):
+        r = rng.random()
+        if r < 0.2:
+            return "nil"
+        if not _has_param(t):
+            # a NON-nil default of a pointer / slice / map field (an option passing nil must override it)
+            if t[0] == "ptr":
+                return "new(%s)" % go_type(t[1])
+            return "%s{}" % go_type(t)
     return None
 
 
